@@ -13,6 +13,33 @@ mod ops;
 mod util;
 
 use std::collections::BTreeMap;
+use std::sync::Mutex;
+
+/// watchdog: (start time, description) of the operation currently running on the main thread
+pub static WATCH: Mutex<Option<(std::time::Instant, String)>> = Mutex::new(None);
+/// oracle failures so far (so that a hang does not lose them)
+pub static FAILS_SO_FAR: Mutex<Vec<String>> = Mutex::new(Vec::new());
+pub fn watch_begin(desc: String) {
+    *WATCH.lock().unwrap() = Some((std::time::Instant::now(), desc));
+}
+pub fn watch_end() {
+    *WATCH.lock().unwrap() = None;
+}
+fn start_watchdog(outdir: String, limit_s: u64) {
+    std::thread::spawn(move || loop {
+        std::thread::sleep(std::time::Duration::from_millis(500));
+        let g = WATCH.lock().unwrap();
+        if let Some((t0, desc)) = &*g {
+            if t0.elapsed().as_secs() > limit_s {
+                let fails = FAILS_SO_FAR.lock().map(|f| f.clone()).unwrap_or_default();
+                let body = format!("{{\"hung\": {}, \"oracle_failures_before_the_hang\": {}}}", desc, serde_json::to_string(&fails).unwrap_or("[]".into()));
+                let _ = std::fs::write(format!("{}/hang.json", outdir), body);
+                eprintln!("operation did not terminate within {} s", limit_s);
+                std::process::exit(3);
+            }
+        }
+    });
+}
 
 pub struct Fail {
     pub what: String,
@@ -42,6 +69,11 @@ impl H {
     pub fn expect(&mut self, cond: bool, class: &str, what: &str, lines: &[u64]) {
         self.oracle_checks += 1;
         if !cond {
+            if let Ok(mut f) = FAILS_SO_FAR.lock() {
+                if f.len() < 50 {
+                    f.push(format!("[{}] {}", class, what));
+                }
+            }
             self.fails.push(Fail {
                 what: what.to_string(),
                 class: class.to_string(),
@@ -83,6 +115,8 @@ fn main() {
     let outdir = args[4].clone();
     std::panic::set_hook(Box::new(|_| {}));
     std::fs::create_dir_all(&outdir).unwrap();
+    let _ = std::fs::remove_file(format!("{}/hang.json", outdir));
+    start_watchdog(outdir.clone(), if tier == "thorough" { 1800 } else { 180 });
 
     let mut all_lines: Vec<String> = Vec::new();
     let mut all_fails: Vec<serde_json::Value> = Vec::new();
